@@ -25,6 +25,16 @@ func makeTlsConfig(cfg *TlsConfig, requireCert bool) (*tls.Config, error) {
 		c.RootCAs = pool
 	}
 
+	// Server side: only serve clients that present a certificate
+	// signed by the configured ca.
+	if requireCert && cfg.VerifyClientCert {
+		if c.RootCAs == nil {
+			return nil, errors.New("verify_client_cert requires a ca")
+		}
+		c.ClientCAs = c.RootCAs
+		c.ClientAuth = tls.RequireAndVerifyClientCert
+	}
+
 	if cfg.DebugUseTempCert {
 		cert, err := testutils.GenerateCertificate("test.test")
 		if err != nil {
